@@ -48,9 +48,16 @@ def uri_difference(URI, got, want):
     try:
         hw = hash(want)
     except TypeError:
-        return None
-    if hash(got) != hw:
-        return "holds an equal uri with a different hash"
+        try:
+            hash(got)
+        except TypeError:
+            return None
+        return "holds a hashable uri although the sender's is not"
+    try:
+        if hash(got) != hw:
+            return "holds an equal uri with a different hash"
+    except TypeError:
+        return "holds an unhashable uri although the sender's is hashable"
     return None
 
 
